@@ -29,7 +29,13 @@ func TestVF_C04_Progress(t *testing.T) {
 		interval := rapid.SampledFrom([]int32{1, 10, 100}).Draw(t, "interval")
 		nb := rapid.IntRange(3, 60).Draw(t, "batches")
 		flushEvery := rapid.SampledFrom([]int{1000, 1000, 7, 20}).Draw(t, "flushEvery")
-		path := rapid.SampledFrom([]string{"cached", "cold-range", "cache-off"}).Draw(t, "path")
+		path := rapid.SampledFrom([]string{"cached", "cold-range", "cache-off", "buffered-tail"}).Draw(t, "path")
+		// buffered-tail: the second half of the batches is never flushed and is served from
+		// the write buffer (what a consumer sees with acks=0 / flush-on-ack off)
+		firstBuffered := nb
+		if path == "buffered-tail" {
+			firstBuffered = nb / 2
+		}
 		obj := vfkit.NewObjStore()
 		mk := func(start int64, cacheOn bool) *PartitionLog {
 			var c *cache.SegmentCache
@@ -39,7 +45,7 @@ func TestVF_C04_Progress(t *testing.T) {
 			return NewPartitionLog("default", "orders", 0, start, newVfS3(obj), c,
 				PartitionLogConfig{Segment: SegmentWriterConfig{IndexIntervalMessages: interval}, CacheEnabled: cacheOn}, nil, nil, nil)
 		}
-		plog := mk(0, path == "cached")
+		plog := mk(0, path == "cached" || path == "buffered-tail")
 		ref := &c03Ref{}
 		indexed := map[int]bool{} // batches that start an index entry (reference recomputation of the documented rule)
 		sinceEntry := int32(0)
@@ -63,7 +69,7 @@ func TestVF_C04_Progress(t *testing.T) {
 				segStart = false
 			}
 			sinceEntry += int32(recs)
-			if (i+1)%flushEvery == 0 {
+			if ((i+1)%flushEvery == 0 && i+1 < firstBuffered) || i+1 == firstBuffered {
 				if err := plog.Flush(ctx); err != nil {
 					t.Fatalf("harness: flush: %v", err)
 				}
@@ -71,10 +77,12 @@ func TestVF_C04_Progress(t *testing.T) {
 				sinceEntry = 0
 			}
 		}
-		if err := plog.Flush(ctx); err != nil {
-			t.Fatalf("harness: flush: %v", err)
+		if path != "buffered-tail" {
+			if err := plog.Flush(ctx); err != nil {
+				t.Fatalf("harness: flush: %v", err)
+			}
 		}
-		if path != "cached" {
+		if path == "cold-range" || path == "cache-off" {
 			plog = mk(ref.end(), path == "cold-range")
 			if _, err := plog.RestoreFromS3(ctx); err != nil {
 				t.Fatalf("restore failed: %v", err)
@@ -85,6 +93,9 @@ func TestVF_C04_Progress(t *testing.T) {
 		var sample []string
 		for k := 0; k < nreads; k++ {
 			hi := rapid.IntRange(0, nb-1).Draw(t, "holder")
+			if path == "buffered-tail" && hi < firstBuffered && rapid.Bool().Draw(t, "intail") {
+				hi = firstBuffered + hi%(nb-firstBuffered)
+			}
 			hb := ref.Batches[hi]
 			o := hb.Base + int64(rapid.IntRange(0, int(hb.Last-hb.Base)).Draw(t, "within"))
 			// distance from the preceding indexed batch start to this batch's start
@@ -93,6 +104,9 @@ func TestVF_C04_Progress(t *testing.T) {
 				lo--
 			}
 			dist := hb.Pos - ref.Batches[lo].Pos
+			if hi >= firstBuffered {
+				dist = 0 // served from the write buffer, which starts at the holder
+			}
 			var m int32
 			switch rapid.IntRange(0, 5).Draw(t, "mclass") {
 			case 0:
@@ -132,7 +146,12 @@ func TestVF_C04_Progress(t *testing.T) {
 				// not this property's claim, but it means the reference is out of sync: report as harness problem
 				t.Fatalf("harness/C03: %s", v3)
 			}
-			if dist > 0 {
+			if hi > firstBuffered && int(m) < len(hb.Bytes) {
+				st.Class("buffered-holder-not-first-and-larger-than-limit")
+				nt = true
+				sample = append(sample, fmt.Sprintf("buffered o=%d m=%d batch=%dB got=%d", o, m, len(hb.Bytes), len(got)))
+			}
+			if dist > 0 && hi < firstBuffered {
 				st.Class("sparse-entry-before-holder")
 				nt = true
 				sample = append(sample, fmt.Sprintf("o=%d m=%d dist=%d got=%d", o, m, dist, len(got)))
